@@ -521,7 +521,38 @@ def r08_14(ctx: Ctx, rule: str = "R08.14") -> None:
         ctx.check(ok, rule, ff, ff.node, "from_folders hands folder CRCs down", "from_folders does not take the folder CRCs", construct="from_folders crc")
 
 
+def r08_17(ctx: Ctx, rule: str = "R08.17") -> None:
+    """a folder CRC that does NOT live on as a substream digest (a folder with several substreams, or with none) is written back by the
+    main-stream writer: an append rewrites the whole header, and that CRC may be the only digest the folder's members have.  The call
+    `unpackinfo.write(...)` in StreamsInfo.write therefore switches the CRC record of UnpackInfo.write on (an argument for the parameter
+    that gates `PROPERTY.CRC`), with a value that depends on the folders' `digestdefined`."""
+    sw = ctx.prog.func("archiveinfo", "StreamsInfo.write")
+    uw = ctx.prog.func("archiveinfo", "UnpackInfo.write")
+    gate = set()
+    for n in walk(uw.node):
+        if isinstance(n, ast.Call) and attr_tail(n) == "write_byte" and len(n.args) > 1 and norm(n.args[1]) == "PROPERTY.CRC":
+            for cd, pol in q.facts_at(uw, n):
+                gate |= {x.id for x in ast.walk(cd) if isinstance(x, ast.Name) and x.id in uw.params and pol}
+    for g_ in list(gate):
+        for v in q.assigned_values(uw, g_):
+            gate |= {x.id for x in ast.walk(v) if isinstance(x, ast.Name) and x.id in uw.params}
+    ctx.need(bool(gate), "UnpackInfo.write: the CRC record is not gated by a parameter (idiom not recognised)")
+    calls = [c for c in q.calls(sw) if norm(c.func).endswith("unpackinfo.write")]
+    ctx.floor(rule, len(calls), 1, "unpackinfo.write call in StreamsInfo.write")
+    for c in calls:
+        args = [k.value for k in c.keywords if k.arg in gate] + [a for i, a in enumerate(c.args) if i + 1 < len(uw.params) and uw.params[i + 1] in gate]
+        live = [a for a in args if not (isinstance(a, ast.Constant) and a.value in (False, None))]
+        dep = any("digestdefined" in norm(q.expand_locals(sw, a)) or isinstance(a, ast.Constant) for a in live)
+        ctx.check(bool(live) and dep, rule, sw, c, "the main-stream writer re-emits folder CRCs that are not carried by a substream digest",
+                  "StreamsInfo.write calls `unpackinfo.write(file)` with the CRC record switched off: the CRC of a folder that holds several substreams (7-Zip writes one when "
+                  "per-member CRCs are off) is dropped by the first append - a flipped bit in an old member raised CrcError before the append and is extracted silently after it",
+                  construct="folder CRC not rewritten")
+
+
 def run(ctx: Ctx) -> None:
+    r08_17(ctx)
+    from . import c15
+    c15.r15_10(ctx, rule="R08.16")  # an append session that fails in its first or last step leaves the archive it found
     shared.layout_agreement(ctx, "R08.15")
     r08_14(ctx)
     r08_13(ctx)
